@@ -165,6 +165,14 @@ def main(argv=None):
                                                                  '\n    ')))))
     print('%d entries, %d as expected, %d not' % (
         len(results), len(results) - len(bad), len(bad)))
+    und = [(r['id'], sorted(k for k, v in r.get('rc', {}).items() if v == 2))
+           for r in results if r.get('expect') == 'silent'
+           and any(v == 2 for v in r.get('rc', {}).values())]
+    if und:
+        print('behaviour-preserving variants a check could not decide '
+              '(exit 2, no alarm): %d cells -- %s' % (
+                  sum(len(c) for _, c in und),
+                  ', '.join('%s:%s' % (i, '+'.join(c)) for i, c in und)))
     if not (args.only or args.id):
         with open(os.path.join(VERIF, 'selftest_report.json'), 'w') as fh:
             json.dump(results, fh, indent=1)
